@@ -3895,6 +3895,8 @@ class Shape(SVGElement, GraphicObject, Transformable):
                 segment_pos = (position - segment_start) / (segment_end - segment_start)
                 break
             segment_start = segment_end
+        else:
+            segment_pos = 1.0  # The rounded fractions summed to just below the position: the end of the last segment.
         return segment.point(segment_pos)
 
     def length(self, error=ERROR, min_depth=MIN_DEPTH):
